@@ -772,8 +772,9 @@ class Ctx:
             self.folder, self.snap = folder, snapshot(folder)
         return self.folder
 
-    def invalidate(self):
-        self.folder = self.snap = None
+    def invalidate(self, folder=True):
+        if folder:
+            self.folder = self.snap = None
         self.pipes = {}
 
     def fresh(self):
@@ -901,14 +902,14 @@ def execute(case, ctx=None):  # noqa: C901, PLR0912, PLR0915
                 + f") [{start} folder]")
         out = []
         if exc is None:
-            ctx.invalidate()
+            ctx.invalidate(folder=start == "prior")
             info["status"] = "accepted"
             out.append(({**base, "kind": "accepted-invalid"},
                         f"{op}/{sub}: {what} returned normally although {call['why']}; {len(log)} user-function calls; pipeline {_describe(gen, spec)}"))
             return out, info
         info.update(status="raised", exc=type(exc).__name__, site=exc_site(exc))
         if log:
-            ctx.invalidate()
+            ctx.invalidate(folder=start == "prior")
             out.append(({**base, "kind": "user-code-ran", "exc": info["exc"], "site": info["site"]},
                         f"{op}/{sub}: {what} raised {info['exc']} ({str(exc)[:80]}) only after {len(log)} user-function call(s) "
                         f"{[n for n, _ in log]} ({call['why']}); pipeline {_describe(gen, rev_spec(spec) if call.get('rev') else spec)}"))
